@@ -87,8 +87,23 @@ def handle (op : String) (req : Json) : R Json := do
             let t := value i s e c
             if !(hm.contains t) || !(hm.contains (fixDec true t)) then throw s!"token {t} not in the parse table"
     let x : Ext V := { parse := fun t => ((hm.get? t).getD none), readInt := fun t => t.toInt? }
-    let tc := renderCols toString acq
-    let tr := renderRows toString acq
+    let explicit ← getBool req "explicit_delimiter"
+    let tc0 := renderCols toString acq
+    let tr0 := renderRows toString acq
+    -- the text of the two files; the readers get its lines split again (at the delimiter passed on, or at the first
+    -- character of the file), unless a line is too long for the structurally recursive splitter of the model
+    let xc := renderText delim tc0
+    let xr := renderText delim tr0
+    let short := (xc ++ xr).all (fun l => l.length < 20000)
+    let resplit := fun (lines : List String) (t0 : Table) => (do
+      if !short then pure t0 else
+      match tableOf (if explicit then some delim else none) lines with
+      | some t => pure t
+      | none => throw "an export without a first character" : R Table)
+    let tc ← resplit xc tc0
+    let tr ← resplit xr tr0
+    let ldText := fun (lines : List String) (t0 : Table) (ua : Bool) =>
+      if short then loadText x lines ua else load x delim t0 ua
     let chanRes := channels.zipIdx.map (fun (ch, ci) =>
       jObj [("channel", jStr ch),
             ("rows", jImg (readRows x comma ch tr)),
@@ -102,6 +117,7 @@ def handle (op : String) (req : Json) : R Json := do
     let specPar : Json := if timeIdx < channels.length
       then jParams (some (specParams x comma acq timeIdx)) else Json.null
     pure (jObj [("table_cols", jTable tc), ("table_rows", jTable tr),
+                ("text_cols", jList jStr xc), ("text_rows", jList jStr xr), ("resplit", jBool short),
                 ("channels", Json.arr chanRes.toArray), ("missing", Json.arr missRes.toArray),
                 ("params_rows", jParams (readParams x true comma tr)),
                 ("params_cols", jParams (readParams x false comma tc)),
@@ -109,8 +125,8 @@ def handle (op : String) (req : Json) : R Json := do
                 ("sniff_rows", jFmt (sniff tr)), ("sniff_cols", jFmt (sniff tc)),
                 ("spec_sniff_rows", jFmt .rows), ("spec_sniff_cols", jFmt .columns),
                 ("other_rows", jBool (otherFile tr)), ("other_cols", jBool (otherFile tc)),
-                ("load_rows", jLoad (load x delim tr false)), ("load_cols", jLoad (load x delim tc false)),
-                ("load_rows_analog", jLoad (load x delim tr true)), ("load_cols_analog", jLoad (load x delim tc true))])
+                ("load_rows", jLoad (ldText xr tr0 false)), ("load_cols", jLoad (ldText xc tc0 false)),
+                ("load_rows_analog", jLoad (ldText xr tr0 true)), ("load_cols_analog", jLoad (ldText xc tc0 true))])
   | "c03.sniff" =>
     -- `lines`: the lines of the decoded text; the sniffer looks for a substring of the whole line
     let lines ← getList asStr req "lines"
